@@ -7,6 +7,8 @@ Driver requests for L3–L5 (container fragment):
     (roundtrip (F (item…) <endGap>))  →  (ok <text>) | (err <class>) | (uncovered <why>)
     (pieces    (F (item…) <endGap>))  →  (ok (t|c|w <text>)…) | (err <class>) | (uncovered <why>)
     (flatten   (F (item…) <endGap>))  →  (ok <text>)
+    (facts     (F …))                 →  (ok <orderOk> <beforeFlatB> <safe> <spacing nf> <tokens kept>)
+    (norm      (F …))                 →  (ok <text> <cst>) for comment-free files: `File.norm`
 
     cst   ::= (l <kind> <text>) | (L (item…) <closeGap>) | (S <t|f> <recGap> (item…) <closeGap>)
     item  ::= (c <gap> <text>) | (e <gap> cst)
@@ -49,6 +51,26 @@ partial def decItems : List SExp → Option Items
   | _ => none
 end
 
+def encKind : LeafKind → String
+  | .ident => "i" | .int => "n" | .float => "f" | .str => "s" | .path => "p"
+
+def encGC (cs : GC) : SExp := .list (cs.map fun p => .list [sText p.1, sText p.2])
+
+mutual
+partial def encCst : Cst → SExp
+  | .leaf k t => .list [.atom "l", .atom (encKind k), sText t]
+  | .list its cg => .list [.atom "L", .list (encItems its), sText cg]
+  | .set r rg its cg => .list [.atom "S", sBool r, sText rg, .list (encItems its), sText cg]
+partial def encItems : Items → List SExp
+  | .nil => []
+  | .cmt g t rest => .list [.atom "c", sText g, sText t] :: encItems rest
+  | .elem g c rest => .list [.atom "e", sText g, encCst c] :: encItems rest
+  | .bind g n c1 g1 c2 g2 v c3 g3 rest =>
+    .list [.atom "b", sText g, sText n, encGC c1, sText g1, encGC c2, sText g2, encCst v, encGC c3, sText g3] :: encItems rest
+end
+
+def encFile (f : File) : SExp := .list [.atom "F", .list (encItems f.items), sText f.endGap]
+
 def decFile : SExp → Option File
   | .list [.atom "F", .list its, .atom eg] => do pure { items := ← decItems its, endGap := ← decText eg }
   | _ => none
@@ -90,6 +112,14 @@ def handle (req : SExp) : Option SExp :=
             sBool (safeGo false s.rebuildP), sBool (summ s.rebuildP).fileOk,
             sBool (decide (toks s.rebuildP = f.codeTokens))])
         | .error e => some (sErr e)
+  | .list [.atom "norm", f] =>
+    -- comment-free files: the tree of the output as the fixed-point theorem names it
+    match decFile f with
+    | none => some (.list [.atom "bad-arg"])
+    | some f =>
+      if !f.covered then some (.list [.atom "uncovered", .atom "wf"])
+      else if !f.items.cf then some (.list [.atom "uncovered", .atom "comments"])
+      else some (.list [.atom "ok", sText f.norm.flatten, encFile f.norm])
   | .list [.atom "flatten", f] =>
     match decFile f with
     | none => some (.list [.atom "bad-arg"])
